@@ -353,6 +353,47 @@ def gen_input_world(rng: random.Random, n_steps: int, dt: Optional[int] = None) 
             "lazy": rng.random() < 0.5}
 
 
+def gen_match_world(rng: random.Random, n_steps: int) -> Dict[str, Any]:
+    """rectangular matching problems with ties: 0-7 vehicles and 0-8 requests on a small lattice (co-located entities,
+    equal distances), charge levels around the matching-range threshold, shifts, optional fleets, several
+    valid_dispatch_states configurations"""
+    dt = 60
+    lattice = [world.at(60.0 * i, 52.0 * j) for i in range(3) for j in range(3)] + [world.at(2500, 900)]
+    use_fleets = rng.random() < 0.4
+    fl = {"fa": {"vehicles": [], "stations": [], "bases": []}, "fb": {"vehicles": [], "stations": [], "bases": []}}
+    n_v, n_r = rng.randint(0, 7), rng.randint(0, 8)
+    b = lattice[0]
+    bases = [{"id": "b1", "lat": b[0], "lon": b[1], "station": "bs1", "stalls": 8}]
+    stations = [{"id": "bs1", "lat": b[0], "lon": b[1], "plugs": [("LEVEL_2", 8, False)]},
+                {"id": "s1", "lat": lattice[4][0], "lon": lattice[4][1], "plugs": [("DCFC", 2, True)]}]
+    vehicles = []
+    for k in range(n_v):
+        c = lattice[rng.randrange(len(lattice))]
+        v = {"id": f"v{k+1}", "lat": c[0], "lon": c[1], "mech": rng.choice(["leaf_50", "leaf_50", "toyota_corolla"]),
+             "soc": rng.choice([0.04, 0.055, 0.0562, 0.06, 0.3, 0.9])}
+        if rng.random() < 0.3:
+            v["schedule"] = rng.choice(["on", "off"])
+            v["home_base"] = "b1"
+        vehicles.append(v)
+        if use_fleets:
+            for f in rng.choice([[], ["fa"], ["fb"], ["fa", "fb"]]):
+                fl[f]["vehicles"].append(v["id"])
+    preload = []
+    for k in range(n_r):
+        o = lattice[rng.randrange(len(lattice))]
+        d = lattice[rng.randrange(len(lattice))]
+        preload.append({"id": f"r{k+1}", "o": o, "d": d, "dep": 0, "pax": 1, "fleet": rng.choice(["fa", "fb"]) if use_fleets else None})
+    states = rng.choice([["Idle", "Repositioning"], ["Idle", "Repositioning"], ["idle", "repositioning", "reservebase", "chargingbase", "dispatchbase"],
+                         ["Idle"]])
+    w = {"name": "match", "dt": dt, "start": 0, "end": dt * n_steps, "cancel": 600, "vehicles": vehicles, "requests": [],
+         "preload": preload, "stations": stations, "bases": bases, "focus": "match",
+         "schedules": [("on", "00:00:00", "23:00:00"), ("off", "23:30:00", "23:40:00")],
+         "dispatcher": {"valid_dispatch_states": states}}
+    if use_fleets:
+        w["fleets"] = fl
+    return w
+
+
 def gen_world(rng: random.Random, *, n_steps: int = 40, fleets: Optional[bool] = None, humans: bool = True,
               dt: Optional[int] = None, tight: bool = True, focus: Optional[str] = None, osm: bool = False) -> Dict[str, Any]:
     """a small world built to make vehicles contend: few plugs and stalls, co-located entities, low charge"""
@@ -368,6 +409,8 @@ def gen_world(rng: random.Random, *, n_steps: int = 40, fleets: Optional[bool] =
         return gen_fleet_world(rng, n_steps)
     if focus == "dispatch":
         return gen_dispatch_world(rng, n_steps)
+    if focus == "match":
+        return gen_match_world(rng, n_steps)
     dt = dt or rng.choice([30, 60, 60, 120])
     ncell = rng.randint(3, 5)
     # cells 300..1500 m apart (one to three steps at 40 km/h and dt = 60)
